@@ -72,7 +72,7 @@ PROPS = {
             "Type::matches and Variable::as_type are uninterpreted",
         ]),
     "C19": dict(
-        probes=["eq", "eq_array"],
+        probes=["eq", "eq_array", "eq_random"],
         explanation="<Variable as PartialEq>::eq, <Array as PartialEq>::eq, equal/not_equal::exec and their fold path proved "
                     "bit-precisely on the real crate for scalars (complete) and for arrays/tuples up to length 2 (bounded); "
                     "MatchArm::covers uses the same `==` (V)",
